@@ -19,6 +19,7 @@ import json
 import os
 import sys
 import tempfile
+import time
 
 import casbin
 from casbin.model import Model
@@ -630,6 +631,169 @@ def stratum_same_adapter(chk, env, n):
     chk.extra.setdefault("strata", {})["same_adapter_save_load_steps"] = runs
 
 
+MODEL_PRIO = """[request_definition]
+r = sub, obj, act
+[policy_definition]
+p = priority, sub, obj, act, eft
+p2 = priority, sub, act
+[role_definition]
+g = _, _
+[policy_effect]
+e = priority(p.eft) || deny
+[matchers]
+m = g(r.sub, p.sub) && r.obj == p.obj && r.act == p.act
+"""
+PRIO_NAMES = ["zoe", "bob", "alice", "é", "a b", "f(x, y)", "漢", "Bob"]
+
+
+def prio_ordered(snap):
+    """the priority column (first field of p and p2 rules) never decreases: the order load_policy establishes and the
+    management API keeps (C07)"""
+    for s, k, pol in snap:
+        if chr(s) == "p":
+            ps = [int(r[0]) for r in pol]
+            if ps != sorted(ps):
+                return False
+    return True
+
+
+def run_priority_history(env, ak, initial_text, calls):
+    """an ENFORCER on a model with a priority column: built from a policy text (load_policy orders it by priority),
+    then management calls, then save_policy(); load_policy(); and a second enforcer loading the same store.
+    Returns (before, saved text, observation after the reload, observation of the fresh enforcer)"""
+    def wait(x):
+        return env.loop.run_until_complete(x) if asyncio.iscoroutine(x) else x
+    m = Model()
+    m.load_model_from_text(MODEL_PRIO)
+    if ak == "string":
+        a = StringAdapter(initial_text)
+        e = casbin.Enforcer(m, a)
+    else:
+        with open(env.path, "wb") as f:
+            f.write(initial_text.encode("utf-8"))
+        if ak == "file":
+            a = FileAdapter(env.path)
+            e = casbin.Enforcer(m, a)
+        else:
+            a = AsyncFileAdapter(env.path)
+            e = casbin.AsyncEnforcer(m, a)
+            wait(e.load_policy())
+    e.enable_auto_save(False)
+    for c in calls:
+        wait(getattr(e, c[0])(*c[1:]))
+    before = snapshot(e.model)
+    saved = None
+    try:
+        wait(e.save_policy())
+        saved = a.line if ak == "string" else open(env.path, "rb").read().decode("utf-8")
+        wait(e.load_policy())
+        obs = obs_ok(snapshot(e.model))
+    except Exception as ex:  # noqa
+        return before, saved, obs_err(ex), None
+    try:
+        m2 = Model()
+        m2.load_model_from_text(MODEL_PRIO)
+        if ak == "string":
+            e2 = casbin.Enforcer(m2, StringAdapter(saved))
+        elif ak == "file":
+            e2 = casbin.Enforcer(m2, FileAdapter(env.path))
+        else:
+            e2 = casbin.AsyncEnforcer(m2, AsyncFileAdapter(env.path))
+            wait(e2.load_policy())
+        fresh = obs_ok(snapshot(e2.model))
+    except Exception as ex:  # noqa
+        fresh = obs_err(ex)
+    return before, saved, obs, fresh
+
+
+def gen_priority_history(rng):
+    prios = ["1", "2", "2", "3", "10", "10"]
+
+    def rule(pt):
+        if pt == "p":
+            return [rng.choice(prios), rng.choice(PRIO_NAMES), rng.choice(["data2", "data1"]), rng.choice(["write", "read"]),
+                    rng.choice(["deny", "allow"])]
+        if pt == "p2":
+            return [rng.choice(prios), rng.choice(PRIO_NAMES), rng.choice(["write", "read"])]
+        return [rng.choice(PRIO_NAMES), rng.choice(["role2", "role1"])]
+    lines = []
+    for _ in range(rng.randint(0, 5)):
+        pt = rng.choice(["p", "p", "p2", "g"])
+        lines.append(", ".join([pt] + rule(pt)))
+    lines = [l for k, l in enumerate(lines) if l not in lines[:k]]
+    if not lines:
+        lines = ["p, 5, seed, data1, read, allow"]        # (the string adapter refuses an empty text: listed finding)
+    calls, live = [], []
+    for _ in range(rng.randint(2, 8)):
+        pt = rng.choice(["p", "p", "p", "p2", "g"])
+        if live and rng.random() < 0.15:
+            pt, r = live.pop(rng.randrange(len(live)))
+            calls.append(["remove_named_grouping_policy" if pt == "g" else "remove_named_policy", pt] + r)
+        else:
+            r = rule(pt)
+            live.append((pt, r))
+            calls.append(["add_named_grouping_policy" if pt == "g" else "add_named_policy", pt] + r)
+    return "\n".join(lines) + "\n", calls
+
+
+def judge_priority(chk, env, ak, text, calls, record=True):
+    before, saved, obs, fresh = run_priority_history(env, ak, text, calls)
+    case = dict(kind="priority-history", adapter=ak, model="priority", stratum="priority-model", initial_text=text, calls=calls)
+    if not prio_ordered(before):
+        return "premise", case, before, obs      # the in-memory order is not a priority order: C07's business, nothing to demand
+    want = obs_ok(before)
+    if obs != want or fresh != want:
+        if record:
+            chk.spec_fail(case, dict(saved=saved, after_reload=obs, fresh_enforcer=fresh), want,
+                          "save_policy(); load_policy() through an Enforcer on a model with a priority column did not give "
+                          "back the same rules in the same order" + ("" if obs != want else " (to a second enforcer reading the same store)"))
+        return "spec", case, before, obs
+    if chk.oracle is not None:
+        w = wire(before)
+        tag_save, tag_rt = (8, 10) if ak == "string" else (7, 9)
+        m_saved, m_rt = chk.oracle.query([(tag_save, w), (tag_rt, w)])
+        if obs != m_rt or (saved is not None and canon(saved) != m_saved):
+            if record:
+                chk.disagree(case, dict(saved=saved, after=obs), dict(saved=core.wstr(m_saved), after=m_rt),
+                             where=f"priority model round trip through {ak}: implementation vs model")
+            return "model", case, before, obs
+    return "ok", case, before, obs
+
+
+def stratum_priority(chk, env, n):
+    """models whose load_policy ORDERS the rules (priority column): the policy is built by an Enforcer (loaded text +
+    management calls, so rules of equal priority stand in arrival order, not text order), saved and loaded again"""
+    rng = chk.rng
+    runs = skipped = 0
+    t0 = time.time()
+    for ak in ADAPTERS:
+        for _ in range(n):
+            text, calls = gen_priority_history(rng)
+            verdict, case, before, obs = judge_priority(chk, env, ak, text, calls, record=False)
+            runs += 1
+            if verdict == "premise":
+                skipped += 1
+                continue
+            ties = any(len({r[0] for r in pol}) < len(pol) for s, k, pol in before if chr(s) == "p")
+            chk.count(("priority", ak, text, json.dumps(calls)) if ties else None)
+            if verdict != "ok":
+                if verdict == "spec" and not too_many(chk, spec=True):
+                    # shrink: drop calls while it still fails
+                    i = len(calls) - 1
+                    while i >= 0:
+                        cand = calls[:i] + calls[i + 1:]
+                        if judge_priority(chk, env, ak, text, cand, record=False)[0] == "spec":
+                            calls = cand
+                        i -= 1
+                    judge_priority(chk, env, ak, text, calls)
+                elif verdict == "model" and not too_many(chk):
+                    judge_priority(chk, env, ak, text, calls)
+    st = chk.extra.setdefault("strata", {})
+    st["priority_model_wall_s"] = round(time.time() - t0, 1)
+    st["priority_model_histories"] = runs
+    st["priority_model_premise_not_met"] = skipped
+
+
 def large_policy(shift, size):
     """> size bytes of mostly multi-byte text; `shift` ASCII bytes in the first rule move every later character by one
     byte, so that over shift = 0,1,2 a 3-byte character straddles EVERY byte offset (in particular any buffer
@@ -683,6 +847,7 @@ def run(chk, n_pol, n_text, maxlen):
         stratum_fields(chk, env, maxlen)
         stratum_same_adapter(chk, env, 12 if chk.tier == "quick" else 120)
         stratum_large(chk, env, (0, 1, 2), (70_000,) if chk.tier == "quick" else (9_000, 70_000, 140_000, 300_000))
+        stratum_priority(chk, env, max(60, n_pol // 20))
         for part in (stratum_roundtrip(chk, env, n_pol), stratum_texts(chk, env, n_text)):
             vm_reqs += part[0]
             vm_reps += part[1]
@@ -734,6 +899,10 @@ def replay(chk):
                     obs = obs_err(ex)
                 bad = bad or obs != obs_ok(before)
             print(f"replay: {len(c['policies_saved_then_loaded'])} save/load steps on one {c['adapter']} adapter: all round trips ok = {not bad}")
+        elif c.get("kind") == "priority-history":
+            verdict, _, before, obs = judge_priority(chk, env, c["adapter"], c["initial_text"], c["calls"], record=False)
+            print(f"replay: priority model through {c['adapter']}: before={before} after={obs} verdict={verdict}")
+            bad = verdict == "spec"
         elif c.get("kind") in ("roundtrip-large", "load-large"):
             pol = large_policy(c["shift"], c["bytes"])
             before, saved, obs = run_roundtrip(env, c["adapter"], c["model"], pol)
@@ -772,7 +941,9 @@ def main():
                 "(adapter, model, policy). (T) texts of 0-6 lines (rule lines with random blank padding, comments, empty "
                 "and blank lines, unknown types, CRLF, 30% with malformed lines) loaded by the three adapters; "
                 "non-trivial = at least one rule lands in the model. (L/F) every line and every field of length <= 4 "
-                "over the alphabet; (W) every Unicode code point for the whitespace set.")
+                "over the alphabet; (W) every Unicode code point for the whitespace set. (P) a model with a priority column: text "
+                "loaded by an Enforcer, 2-8 add/remove calls with priorities from {1, 2, 3, 10} (ties on purpose), save, load, "
+                "and a second enforcer on the same store; non-trivial = two rules share a priority.")
     chk.assumptions = [
         "UTF-8 locale and strings of Unicode scalar values (the file adapters encode with the locale; lone surrogates cannot be written)",
         "text-mode newline translation is the identity (POSIX): only '\\n' separates lines, so 'no line break' in wf_field is 'no \\n' (a weaker hypothesis than excluding \\r etc.)",
